@@ -331,10 +331,19 @@ func (s *Server) handleMessage(msg json.RawMessage) {
 	if !s.checkRateLimit() {
 		// For requests with IDs, send rate limit error response
 		var req Request
-		if err := decodeRequest(msg, &req); err == nil && req.ID != nil {
-			s.sendError(req.ID, RequestCancelled, "rate limit exceeded")
+		if err := decodeRequest(msg, &req); err != nil {
+			return
 		}
-		return
+		if req.ID != nil {
+			s.sendError(req.ID, RequestCancelled, "rate limit exceeded")
+			return
+		}
+		if !isDocumentSync(req.Method) {
+			return
+		}
+		// Document synchronisation is never dropped: losing one open, change
+		// or close would leave the server's copy of the text different from
+		// the editor's for the rest of the session.
 	}
 
 	// Validate message is not empty or too small to be valid JSON-RPC
@@ -385,6 +394,16 @@ func decodeRequest(msg json.RawMessage, req *Request) error {
 	dec := json.NewDecoder(bytes.NewReader(msg))
 	dec.UseNumber()
 	return dec.Decode(req)
+}
+
+// isDocumentSync reports whether method is one of the notifications that carry
+// the text of a document.
+func isDocumentSync(method string) bool {
+	switch method {
+	case "textDocument/didOpen", "textDocument/didChange", "textDocument/didClose":
+		return true
+	}
+	return false
 }
 
 // safeHandleRequest runs a request handler; a panic in it becomes an error
